@@ -40,13 +40,13 @@ TRUSTED = [
     "hand model Models/Printer.lean + Models/RefAlloc.lean of targets/base.py, expr.py (tostring/compute_need_ref/make_ref), context.py (_register_reference), tied by token/AST correspondence on every run",
     "trusted primitive tables: kindSem / constSem / typeSem in Models/Printer.lean (which operator or library function implements a kind) and their independent Python twins in fav/workers/c05_interp.py",
     "translator fav/props/c05_tables.py (module attributes -> Lean literals)",
-    "Python `ast`, black (formatting only), g++ 12 -O0 -ffp-contract=off, glibc libm, NumPy scalar arithmetic = IEEE",
+    "Python `ast`, black (formatting only), g++ 12 -O0 -ffp-contract=off -frounding-math (no compile-time folding of libm calls), glibc libm, NumPy scalar arithmetic = IEEE",
     "Expr.get_type / toidentifier / str(value) are inputs of the model (C08 / C07 own them)",
 ]
 LEVEL_TEXT = ("Proof for the printer model: for every DAG with pairwise distinct reference names the printed statement list is in SSA form "
               "(each variable assigned once, before use), evaluates to the value of the graph for every primitive semantics and environment, and "
               "debug level 1 adds only assertions; every row of the regenerated kind/constant/type tables denotes its kind per the trusted primitive "
-              "table (6 rows exempt with proved negation witnesses); the reference registry is injective along every history that never takes the "
+              "table (5 rows exempt by name — python/numpy remainder, python sign, cpp sign, numpy item — with proved negation witnesses); the reference registry is injective along every history that never takes the "
               "unchecked `_0_` branch (negation witness proved and replayed). Execution bit-identity, compile/load errors and name collisions of "
               "auto-generated names are decided by differential runs against an independent interpreter (search).")
 LEVEL_NOTE = ("Partial where stated: registry injectivity and template correctness are false of the code as written (exact extra hypotheses / "
@@ -287,6 +287,8 @@ def classify(r):
         out.append((f"harness:{t}", ex["harness_error"][-300:]))
     for er in ex.get("errors", []):
         msg = er.get("error", "")
+        if alias and er.get("stage") in ("compile-error", "load-error"):
+            continue  # consequence of the aliasing reported above (a variable of another type is used)
         if "floot" in msg:
             out.append(("template:cpp:floor:std::floot", "emitted C++ does not compile: " + msg))
         elif "operator%" in msg:
